@@ -14,13 +14,43 @@ class FaultSpec(object):
         return "Fault(%r, %r, data=%r)" % (self.code, self.msg, self.data)
 
 
+class ObjSpec(object):
+    """Descriptor of a non-container, non-primitive object passed as `params`: a Decimal, an enum member, a bean.
+    (With a method name dump must refuse it like any scalar, class translation on or off.)"""
+
+    def __init__(self, kind):
+        self.kind = kind
+
+    def __repr__(self):
+        return "Obj(%s)" % self.kind
+
+    def build(self):
+        if self.kind == "decimal":
+            import decimal
+            return decimal.Decimal("1.5")
+        if self.kind == "enum":
+            import enum
+            return enum.Enum("Colour", "RED GREEN").RED
+        if self.kind == "set":
+            return frozenset()
+
+        class Bean(object):
+            def __init__(self):
+                self.x = 1
+        return Bean()
+
+
 def val_to_json(v):
+    if isinstance(v, ObjSpec):
+        return {"$obj": v.kind}
     if isinstance(v, FaultSpec):
         return {"$fault": [ser.to_json(v.code), ser.to_json(v.msg), ser.to_json(v.data)]}
     return ser.to_json(v)
 
 
 def val_from_json(j):
+    if isinstance(j, dict) and len(j) == 1 and "$obj" in j:
+        return ObjSpec(j["$obj"])
     if isinstance(j, dict) and len(j) == 1 and "$fault" in j:
         c, m, d = j["$fault"]
         return FaultSpec(ser.from_json(c), ser.from_json(m), ser.from_json(d))
@@ -72,6 +102,8 @@ def plain_json(v, top=True):
 
 
 def g_params(p):
+    if isinstance(p, ObjSpec):
+        return "(PVal (VOpaque 0%N))"
     if isinstance(p, FaultSpec):
         return "(PFault %s %s %s)" % (G.g_val(p.code), G.g_val(p.msg), G.g_val(p.data))
     return "(PVal %s)" % G.g_val(p)
